@@ -69,6 +69,10 @@ CLAUSE = {
     "live_buffer_unbounded": "one malformed frame can never block the frames that follow it on a live "
                              "connection (receive buffer stays bounded)",
     "live_livelock": "repeated decoding of any buffer terminates (live read loop)",
+    "state_leak": "decoding in its non-raising mode never raises / one malformed frame can never block the frames "
+                  "that follow it (a valid frame decoded on the SAME Codec instance after the malformed input)",
+    "live_delivered_twice": "one malformed frame can never block the frames that follow it on a live connection "
+                            "(every frame is handed over once: no frame is delivered twice)",
     "baseline": "valid frames that follow are decoded (sanity: an undamaged stream is returned frame by frame)",
 }
 
@@ -80,18 +84,38 @@ CALLS = 0
 _COD = None
 
 
-def codec():
-    global _COD
-    if _COD is None:
-        from asyncfix.codec import Codec
+_PROTO = None
+
+
+def new_codec():
+    """A fresh Codec instance. One instance serves ALL stages of one case (the
+    malformed input and the valid frames that follow it, as on a connection);
+    cases never share an instance, so a verdict never depends on what a worker
+    process decoded before."""
+    global _COD, _PROTO
+    from asyncfix.codec import Codec
+
+    if _PROTO is None:
         from asyncfix.protocol import FIXProtocol44
 
-        _COD = Codec(FIXProtocol44())
+        _PROTO = FIXProtocol44()
+    _COD = Codec(_PROTO)
     return _COD
 
 
+def codec():
+    return _COD if _COD is not None else new_codec()
+
+
 def tail_body(n, root):
-    return [(11, "%s%d" % (root, n)), (55, "MSFT"), (54, 1), (38, 100)]
+    """Valid application traffic: plain frames, frames with a repeating group and
+    frames with a nested group take turns."""
+    b = [(11, "%s%d" % (root, n)), (55, "MSFT")]
+    if n % 3 == 1:
+        b += [(453, 2), (448, "p1"), (447, "D"), (452, 1), (448, "p2"), (447, "D"), (452, 3)]
+    elif n % 3 == 2:
+        b += [(453, 1), (448, "p1"), (447, "D"), (452, 1), (802, 2), (523, "s1"), (803, 1), (523, "s2"), (803, 2)]
+    return b + [(54, 1), (38, 100)]
 
 
 def setup(seed=None, S=None, T=None, root=None):
@@ -105,6 +129,13 @@ def setup(seed=None, S=None, T=None, root=None):
     # valid tail frames as the peer T would send them to the endpoint S
     ST["tail"] = [refs.frame("D", 1000 + i, T, S, tail_body(1000 + i, root)) for i in range(400)]
     ST["tail_cum"] = list(itertools.accumulate(len(f) for f in ST["tail"]))
+    ST["tail_max"] = max(len(f) for f in ST["tail"][:3])
+    # probes for the state-leak stage: (frame, rendering by a fresh decoder instance)
+    ST["probes"] = []
+    for i in (0, 1, 2):
+        f = refs.frame("D", 7000 + i, T, S, tail_body(7000 + i, root))
+        r = new_codec().decode(f, silent=True)
+        ST["probes"].append((f, None if r[0] is None else str(r[0]), r[1]))
     ST["corpus"] = build_corpus(S, T, root)
     ST["tokens"] = build_tokens()
     ST["crafted"] = build_crafted(S, T, root)
@@ -231,6 +262,52 @@ def build_crafted(S, T, root):
         add("truncated", good[:i])
     for i in range(1, len(good)):
         add("head_cut", good[i:])
+    # -- defects INSIDE an open repeating group (correct BodyLength / CheckSum around them) --
+    G = hdr + [(11, root + "G"), (55, "MSFT"), (453, 2), (448, "p1"), (447, "D"), (452, 1), (802, 1), (523, "s1"),
+               (803, 2), (448, "p2"), (447, "D"), (452, 3), (54, 1), (38, 100)]
+    gi = next(i for i, (t, _x) in enumerate(G) if t == 453)
+    ge = next(i for i, (t, _x) in enumerate(G) if t == 54)
+
+    def enc(fs):
+        return b"".join(b"%s=%s\x01" % (str(t).encode(), str(v).encode()) for t, v in fs)
+
+    def g_at(pos, piece):
+        b = enc(G[:pos]) + piece + enc(G[pos:])
+        return with_ck(b"8=FIX.4.4\x019=%d\x01" % len(b) + b)
+
+    add("valid", refs.build(G))
+    for pos in range(gi + 1, ge + 1):
+        add("in_group:field_without_equals", g_at(pos, b"38\x01"))
+        add("in_group:non_numeric_tag", g_at(pos, b"x=1\x01"))
+        add("in_group:non_numeric_tag", g_at(pos, b"44\x00=1\x01"))
+        add("in_group:empty_field", g_at(pos, b"\x01"))
+        add("in_group:empty_tag", g_at(pos, b"=1\x01"))
+        # frame without CheckSum that ends inside the group: BodyLength stale / adjusted
+        add("in_group:no_checksum", refs.build(G)[: len(b"8=FIX.4.4\x019=%d\x01" % len(enc(G))) + len(enc(G[:pos]))])
+        b = enc(G[:pos])
+        add("in_group:no_checksum", b"8=FIX.4.4\x019=%d\x01" % len(b) + b)
+        add("in_group:checksum_wrong", refs.build(G[:pos], cksum=b"000" if refs.build(G[:pos])[-4:-1] != b"000" else b"001"))
+    # -- well-FRAMED messages (correct BodyLength and CheckSum) the session layer stumbles over --
+    def sess(**kw):
+        h = [(35, kw.get("t", "D")), (49, kw.get("snd", T)), (56, kw.get("tgt", S)), (34, kw.get("seq", seq)), (52, ts)]
+        h = [(t, v) for (t, v) in h if v is not None]
+        return refs.build(h + kw.get("body", body))
+
+    for v in ("abc", "", "-1", "0", "1e3", " 5", "3 ", "3.0", "+3", "0x3", "3\x00", "9" * 20, "\xb3"):
+        add("session:msgseqnum_value", sess(seq=v))
+    add("session:msgseqnum_missing", sess(seq=None))
+    add("session:msgtype_missing", refs.build(hdr[1:] + body))
+    add("session:msgtype_missing", sess(t=""))
+    add("session:msgtype_unknown", sess(t="ZZ"))
+    add("session:compid", sess(snd=None))
+    add("session:compid", sess(tgt=None))
+    add("session:compid", sess(snd="", tgt=""))
+    for t, bd in (("4", [(123, "Y"), (36, "abc")]), ("4", [(123, "Y")]), ("4", [(36, "")]), ("4", [(36, "-4")]),
+                  ("2", [(7, "abc"), (16, 0)]), ("2", [(7, 1), (16, "xyz")]), ("2", []), ("2", [(7, ""), (16, "")]),
+                  ("1", []), ("0", [(112, "abc")]), ("A", [(98, 0), (108, "abc")]), ("A", []), ("3", [(45, "x")]),
+                  ("D", [])):
+        add("session:admin_body", sess(t=t, body=bd))
+        add("session:admin_body+seq", sess(t=t, body=bd, seq="abc"))
     # the same, arriving behind junk in the same read
     n = len(out)
     for i in range(n):
@@ -306,6 +383,54 @@ def cause_of(buf, for_raise=False):
         return "bodylength_mismatch"
     if int(fields[-1][3:]) != refs.checksum(region[: len(region) - trailer]):
         return "checksum_mismatch"
+    return "well_formed"
+
+
+def _candidate_fields(buf):
+    s = buf.find(MARK)
+    if s < 0:
+        return []
+    nx = buf.find(MARK, s + len(MARK))
+    fields = buf[s: nx if nx >= 0 else len(buf)].split(SOH)
+    if fields and fields[-1] == b"":
+        fields = fields[:-1]
+    return fields
+
+
+def defect_in_group(buf):
+    """Label: does the first lexical defect (or the end of a frame that has no
+    CheckSum field) of the first frame candidate sit inside an open repeating group?"""
+    in_group = False
+    last = b""
+    for f in _candidate_fields(buf)[2:]:
+        t, eq, _val = f.partition(b"=")
+        if not eq or not t.isdigit():
+            return in_group
+        if t in GROUP_START:
+            in_group = True
+        elif in_group and t not in GROUP_MEMBERS:
+            in_group = False
+        last = t
+    return in_group and last != b"10"
+
+
+def session_cause(buf):
+    """Label for a well-FRAMED message: what the session layer will stumble over."""
+    d = {}
+    for f in _candidate_fields(buf):
+        t, _eq, val = f.partition(b"=")
+        d.setdefault(t, val)
+    if b"35" not in d or d[b"35"] == b"":
+        return "msgtype_missing"
+    if b"49" not in d or b"56" not in d:
+        return "compid_missing"
+    if b"34" not in d:
+        return "msgseqnum_missing"
+    if not d[b"34"].isdigit():
+        return "msgseqnum_non_numeric"
+    for t in (b"36", b"7", b"16", b"108"):
+        if t in d and not d[t].isdigit():
+            return "session_number_non_numeric"
     return "well_formed"
 
 
@@ -434,14 +559,16 @@ def tail_count(need, minimum):
     """Number of tail frames so that their bytes outlast ``need`` by 3 frames."""
     cum = ST["tail_cum"]
     k = minimum
-    want = need + 3 * len(ST["tail"][0])
+    want = need + 3 * ST["tail_max"]
     while k < len(cum) and cum[k - 1] < want:
         k += 1
     return k
 
 
 def sim_case(m, kind):
-    """All bare-decoder stages for one input. Returns (violation|None, outcome str)."""
+    """All bare-decoder stages for one input on ONE fresh Codec instance.
+    Returns (violation|None, outcome str)."""
+    new_codec()
     rep = {"mode": "sim", "input": m, "kind": kind, "S": ST["S"], "T": ST["T"], "root": ST["root"]}
     tail = ST["tail"]
     # -- single ------------------------------------------------------------
@@ -450,6 +577,21 @@ def sim_case(m, kind):
     if v:
         return v, "violation"
     out = _res_class(m, r)
+    # -- state leak: valid frames on the same instance right after the malformed input ----
+    for pi, (pf, ptxt, pn) in enumerate(ST["probes"]):
+        r = call(pf)
+        what = None
+        if r[0] == "exc":
+            what = "raises:" + r[1]
+        elif r[1] is None or r[2] != pn or str(r[1]) != ptxt:
+            what = "different_result"
+        if what:
+            where = "defect_in_open_group" if defect_in_group(m) else "defect_elsewhere"
+            return _v("state_leak", "%s:%s" % (what, where),
+                      {"stage": "state_leak", "input": m[:400], "valid_frame": pf,
+                       "probe": ("plain", "group", "nested_group")[pi],
+                       "observed": r[1:3] if r[0] == "exc" else [None if r[1] is None else str(r[1])[:300], r[2]],
+                       "expected": [ptxt, pn]}, rep), "violation"
     # -- one buffer -----------------------------------------------------------
     buf = m + tail[0] + tail[1]
     cap = len(buf) + 2
@@ -584,12 +726,23 @@ def live_case(m, kind):
             scan()
         left = msg_buffer(w.c)
         cause = cause_of(left) if left else cause_of(m)
+        if cause == "well_formed":
+            cause = session_cause(left if left else m)
+        seen, twice = set(), []
+        for (t, n, d) in w.c.delivered:
+            key = (t, n, repr(sorted(d.items(), key=repr)))
+            if key in seen:
+                twice.append((t, n))
+            seen.add(key)
         obs = {"input": m[:400], "valid_frames_fed": nfr, "valid_bytes_fed": fed, "legit_wait_bytes": need,
                "delivered_after": len(w.c.delivered) - before, "receive_buffer": len(left),
                "buffer_head": left[:120], "state": w.c.connection_state.name,
                "resend_requests_seen": resend_requests[0]}
         if w.livelock:
             return _v("live_livelock", cause, obs, rep), "violation"
+        if twice:
+            obs["delivered_twice"] = twice[:5]
+            return _v("live_delivered_twice", cause, obs, rep), "violation"
         if w.c.n_disconnect > 0:
             return None, "disconnected_by_session_layer"
         if len(w.c.delivered) == before:
@@ -712,6 +865,7 @@ def baseline(ctx):
     """Sanity: the undamaged material is decoded as the reference framer says."""
     tail = ST["tail"][:14]
     bad = []
+    new_codec()
     for name, f, _q in ST["corpus"]:
         r = call(f)
         s = f.find(b"8=")
